@@ -38,7 +38,7 @@ PARTIAL = [
     'show the results do not depend on them)',
 ]
 RULE = ('scenes = (style, targets, queries) with integer coordinates; styles: random, clustered, collinear, coplanar, '
-        'lattice (many exact ties), duplicates, single-point (zero extent), queries far outside the target box / far '
+        'lattice (many exact ties), duplicates, single-point (zero extent), outliers (Hausdorff: several points per leaf), queries far outside the target box / far '
         'inside, 1..40 targets, 1..12 queries; per scene k in {1,2,3,|T|-1,|T|,|T|+1,|T|+3} x bound in {inf, 0, sqrt(m) '
         'for m a realised squared distance and m-1, m+1}; Hausdorff on pairs of such sets; hop graphs on tet/hex/mixed '
         'bricks mapped by an integer matrix, radii on realised node distances; a case is non-trivial when the answer '
@@ -154,6 +154,14 @@ def gen_points(rnd, style, n):
     if style == 'single':
         p = [rnd.randint(-9, 9) for _ in range(3)]
         return [list(p) for _ in range(n)]
+    if style == 'outliers':
+        # two far points stretch the root box so that a leaf (half width = 0.51 * extent / 256) holds several of the
+        # others: the leaf-level bounds of the Hausdorff kernel then actually decide something
+        far = rnd.choice([150, 300, 600])
+        ax = rnd.randrange(3)
+        base = [[rnd.randint(-8, 8) for _ in range(3)] for _ in range(max(1, n - 2))]
+        out = [[far if j == ax else 0 for j in range(3)], [-far if j == ax else 0 for j in range(3)]]
+        return (base + out)[:max(n, 1)] if n >= 3 else base
     raise ValueError(style)
 
 
@@ -389,8 +397,28 @@ def haus_scene(ctx, A, B, label):
         ctx.count('hausdorff:directed-values-equal')
 
 
+def crafted_haus():
+    """scenes in which the leaf-level upper bounds decide the answer: six far points fix the root box (centre 0, half width
+    5100, leaf width 39.84); a1 and its only near target b1 sit at opposite corners of ONE leaf (distance 65.8, between
+    sqrt(2) and sqrt(3) leaf widths), a2 has its nearest target at distance 60 in another leaf.  An upper bound that
+    forgets a box width on one axis ranks a1's leaf below 60 and stops before it."""
+    far = [[s * 5000 if j == ax else 0 for j in range(3)] for ax in range(3) for s in (1, -1)]
+    out = []
+    for perm in ([0, 1, 2], [2, 0, 1], [1, 2, 0]):
+        def P(p):
+            return [p[perm[0]], p[perm[1]], p[perm[2]]]
+        A = far + [P([1, 1, 1]), P([-100, 0, 0])]
+        B = far + [P([39, 39, 39]), P([-160, 0, 0])]
+        out.append((A, B, 'crafted/leaf-diagonal'))
+        out.append(([[-v for v in p] for p in A], [[-v for v in p] for p in B], 'crafted/leaf-diagonal-mirrored'))
+    return out[:4]
+
+
+HSTYLES = STYLES + ['outliers', 'outliers']
+
+
 def gen_haus(rnd, i):
-    style = STYLES[i % len(STYLES)]
+    style = HSTYLES[i % len(HSTYLES)]
     A = gen_points(rnd, style, rnd.choice([1, 3, 8, 20, 40]))
     mode = rnd.choice(['same-style', 'subset', 'superset', 'shifted', 'other'])
     if mode == 'same-style':
@@ -403,7 +431,7 @@ def gen_haus(rnd, i):
         s = [rnd.randint(-30, 30) for _ in range(3)]
         B = [[p[j] + s[j] for j in range(3)] for p in A]
     else:
-        B = gen_points(rnd, rnd.choice(STYLES), rnd.choice([2, 9, 30]))
+        B = gen_points(rnd, rnd.choice(HSTYLES), rnd.choice([2, 9, 30]))
     return A, B, f'{style}/{mode}'
 
 
@@ -556,6 +584,8 @@ def run(ctx):
         ctx.count('corpus:' + ('fails' if r.get('fails') else 'passes'))
     for i in range(n_knn):
         knn_scene(ctx, gen_scene(ctx.rng, i), n_combo)
+    for A, B, label in crafted_haus():
+        haus_scene(ctx, A, B, label)
     for i in range(n_haus):
         A, B, label = gen_haus(ctx.rng, i)
         haus_scene(ctx, A, B, label)
